@@ -485,10 +485,22 @@ func checkC15(c *Ctx, w *World) {
 			}
 			if mu, ok := in.(*ssa.MapUpdate); ok && isLoadOf(mu.Map, "GCPMultiEndpoint.mes") && rl.key(mu.Key) {
 				if imp, _ := cs.Implies(cs.Reach(mu), cs.Not(cs.Atom("exists"))); imp {
-					if e, isE := stripConv(mu.Value).(*ssa.Extract); isE && e.Index == 0 {
-						if nc, isC := e.Tuple.(*ssa.Call); isC && strings.HasSuffix(calleeOf(&nc.Call).Name(), "multiendpoint.NewMultiEndpoint") && rl.val(nc.Call.Args[0]) {
-							okAdd = true
+					// (the stored value on the ways that reach the store: a helper's result variable is resolved)
+					vals := cs.ResolveUnder(mu.Value, cs.Reach(mu))
+					all := len(vals) > 0
+					for _, v := range vals {
+						good := false
+						if e, isE := stripConv(v).(*ssa.Extract); isE && e.Index == 0 {
+							if nc, isC := e.Tuple.(*ssa.Call); isC && strings.HasSuffix(calleeOf(&nc.Call).Name(), "multiendpoint.NewMultiEndpoint") && rl.val(nc.Call.Args[0]) {
+								good = true
+							}
 						}
+						if !good {
+							all = false
+						}
+					}
+					if all {
+						okAdd = true
 					}
 				}
 			}
